@@ -43,9 +43,13 @@ RCP<const Basic> primepi(const RCP<const Basic> &arg)
         }
     }
     if (is_a_Number(*arg) or is_a<Constant>(*arg)) {
+        RCP<const Basic> fl = SymEngine::floor(arg);
+        if (not is_a<Integer>(*fl)) {
+            // an infinite or NaN floating point number is its own floor
+            return arg;
+        }
         unsigned int num
-            = (unsigned int)down_cast<const Integer &>(*SymEngine::floor(arg))
-                  .as_uint();
+            = (unsigned int)down_cast<const Integer &>(*fl).as_uint();
         Sieve::iterator pi(num);
         unsigned long int p = 0;
         while ((pi.next_prime()) <= num) {
@@ -92,8 +96,12 @@ RCP<const Basic> primorial(const RCP<const Basic> &arg)
         }
     }
     if (is_a_Number(*arg) or is_a<Constant>(*arg)) {
-        unsigned long n
-            = down_cast<const Integer &>(*SymEngine::floor(arg)).as_uint();
+        RCP<const Basic> fl = SymEngine::floor(arg);
+        if (not is_a<Integer>(*fl)) {
+            // an infinite or NaN floating point number is its own floor
+            return arg;
+        }
+        unsigned long n = down_cast<const Integer &>(*fl).as_uint();
         return make_rcp<const Integer>(mp_primorial(n));
     }
     return make_rcp<const Primorial>(arg);
